@@ -421,7 +421,9 @@ class C16(core.Prop):
                     if col['toks'] is None and t == 'datetime':
                         toks, seps = ['yyyy', 'MM', 'dd', 'HH', 'mm', 'ss'], ['-', '-', 'T', ':', ':']
                     s = write_instant(toks, seps, v)
-                if any(ch in s for ch in (delim, '"', '\n', '\r')) or s != s.strip() or s == '':
+                # (blanks at either end are data, quoted or not: every other table writes them unquoted)
+                if any(ch in s for ch in (delim, '"', '\n', '\r')) or (s != s.strip() and case['nrow'] % 2 == 0) or s == '' \
+                        or (s != s.strip() and delim in (' ', '\t')) or s.strip() == '':
                     s = '"' + s.replace('"', '""') + '"'
                 return s
             lines = []
@@ -468,7 +470,9 @@ class C16(core.Prop):
             hk = ''
             try:
                 with contextlib.redirect_stdout(io.StringIO()), contextlib.redirect_stderr(io.StringIO()):
-                    df = csv2pandas(csvpath, mdpath)
+                    # (declared types hold whatever the reader is allowed to upgrade: a third of the tables ask for
+                    # whole-number reals to be upgraded to integers, which concerns undeclared columns only)
+                    df = csv2pandas(csvpath, mdpath, upgrade_possible_ints=True) if case['nrow'] % 3 == 0 else csv2pandas(csvpath, mdpath)
             except Exception as e:
                 kinds = sorted({c['type'] for c in case['cols']})
                 fail('load-raises', '%s: %s' % (type(e).__name__, str(e)[:200]),
